@@ -41,6 +41,7 @@ type Process struct {
 	procConf            *types.ProcessConfig
 	procState           *types.ProcessState
 	stateMtx            sync.Mutex
+	ended               bool
 	procCond            sync.Cond
 	procStartedChan     chan struct{}
 	procStateChan       chan string
@@ -105,12 +106,10 @@ func NewProcess(opts ...ProcOpts) *Process {
 func (p *Process) run() int {
 	verifGate(p, "run.precheck")
 	if p.procRunCtx.Err() != nil {
-		// stopped before it was started: the stop request marks the pending instance
-		// as done (Terminating); once it has, there is nothing left to terminate
+		// stopped before it was started: the stop request has ended (or is ending) this pending
+		// instance. The state record is shared with newer instances of this process: an instance
+		// that has ended does not write it any more
 		p.waitForCompletion()
-		// the state record is shared with newer instances of this process: only move on from
-		// the Terminating this stop left behind, never overwrite what a successor reported
-		p.setStateIfOneOf(types.ProcessStateCompleted, types.ProcessStateTerminating)
 		return 0
 	}
 
@@ -431,9 +430,9 @@ func (p *Process) stopProcess(cancelReadinessFuncs bool) error {
 		// command == nil: the shared state says running but this instance has launched nothing
 		log.Debug().Msgf("process %s is in state %s not shutting down", p.getName(), p.getStatusName())
 		verifGate(p, "stop.checked.notrunning")
-		// prevent pending process from running
+		// prevent pending process from running: there is nothing to terminate, the instance is over
 		if p.isPendingInstance() {
-			p.onProcessEnd(types.ProcessStateTerminating)
+			p.onProcessEnd(types.ProcessStateCompleted)
 		}
 		return nil
 	}
@@ -527,6 +526,12 @@ func (p *Process) onProcessStart() {
 }
 
 func (p *Process) onProcessEnd(state string) {
+	if !p.claimEnd() {
+		// a stop request ended this instance while it was pending, racing with its being skipped
+		// or launched: an instance ends once
+		p.waitForCompletion()
+		return
+	}
 	if isStringDefined(p.procConf.LogLocation) {
 		p.logger.Close()
 	}
@@ -756,23 +761,34 @@ func (p *Process) setState(state string) {
 	p.onStateChange(state)
 }
 
-// setStateIfRunning sets the state only if the process is still running (atomically)
+// setStateIfRunning sets the state only if the process is still running (atomically).
+// The state record is shared with the next instance of the process: an instance that has
+// ended must not take a successor's Running for its own (a stop request that fetched this
+// instance just before it ended would otherwise mark the successor as Terminating).
 func (p *Process) setStateIfRunning(state string) bool {
-	return p.setStateIfOneOf(state, types.ProcessStateRunning, types.ProcessStateLaunched, types.ProcessStateLaunching)
-}
-
-// setStateIfOneOf sets the state only if the current one is among `from` (atomically)
-func (p *Process) setStateIfOneOf(state string, from ...string) bool {
 	p.stateMtx.Lock()
 	defer p.stateMtx.Unlock()
-	for _, f := range from {
-		if p.procState.Status == f {
-			p.procState.Status = state
-			p.onStateChange(state)
-			return true
-		}
+	if p.ended {
+		return false
+	}
+	switch p.procState.Status {
+	case types.ProcessStateRunning, types.ProcessStateLaunched, types.ProcessStateLaunching:
+		p.procState.Status = state
+		p.onStateChange(state)
+		return true
 	}
 	return false
+}
+
+// claimEnd marks this instance as ended; only the first caller gets true
+func (p *Process) claimEnd() bool {
+	p.stateMtx.Lock()
+	defer p.stateMtx.Unlock()
+	if p.ended {
+		return false
+	}
+	p.ended = true
+	return true
 }
 
 func (p *Process) getState() *types.ProcessState {
